@@ -1,5 +1,6 @@
 (* C05: predictive search returns exactly the keys that start with the query, ascending, with lookup's ids. *)
-From X Require Import Builder IfaceBuild Base Arr Dac Trie Spec Wf IfaceQuery All AllBuild Examples ExampleFacts.
+From X Require Import Builder IfaceBuild Base Arr Dac Trie Spec Wf IfaceQuery All AllBuild Examples ExampleFacts
+  AccessLib AccessGen AccessDispatch AccessTrieGen IfaceAccessTrie AllAccessTrie.
 Local Open Scope N_scope.
 
 Theorem C05_predictive_search : forall v L P K, wf_for v L P K -> forall q, bytes_ok q = true ->
@@ -14,6 +15,19 @@ Theorem C05_for_all_valid_K : forall v tbl K req, valid_keys K = true -> small_k
   predictive_search P q = Ok (with_ids P (spec_completions K q)).
 Proof. exact headline_predictive. Qed.
 
+(* the same for trie::next_predictive as REGENERATED FROM trie.hpp on every run (AccessTrieGen.trg_next_predictive: the
+   descent along the query, the cursor stack, the search loop over the alphabet): n successive advances of a fresh iterator
+   give the spec's list, then false forever.  The bound on n only excludes runs of 2^61 search steps. *)
+Theorem C05_source_predictive_iterator : forall v L P K, wf_for v L P K -> forall q n, bytes_ok q = true -> lenN q < 2^61 ->
+  N.of_nat n * (bc_num_units (t_bc P) + 2) < 2^61 ->
+  pred_calls_g P (mk_predictive q) n = Ok (abs_calls (with_ids P (spec_completions K q)) n).
+Proof. exact src_predictive. Qed.
+Example C05_source_example : match ex_trie V15 with
+  | Ok P => match pred_calls_g P (mk_predictive [97]) 5 with
+            | Ok l => map (option_map snd) l = [Some [97]; Some [97; 98]; Some [97; 98; 99; 100]; None; None] | _ => False end
+  | _ => False end.
+Proof. vm_compute. reflexivity. Qed.
+
 Example C05_nonvacuous : forall v, exists L P, ex_logical v = Ok L /\ wf_for v L P ex_keys.
 Proof. exact ex_wf_for. Qed.
 Example C05_example : match ex_trie V16 with
@@ -23,4 +37,4 @@ Example C05_example : match ex_trie V16 with
 Proof. vm_compute. split; reflexivity. Qed.
 
 Print Assumptions C05_predictive_search.
-Print Assumptions C05_for_all_valid_K.
+Print Assumptions C05_for_all_valid_K. Print Assumptions C05_source_predictive_iterator.
